@@ -249,7 +249,7 @@ class sptensor:
         nonzeros = int(nonzeros)
 
         # Keep iterating until we find enough unique nonzeros or we give up
-        subs = np.array([])
+        subs = np.empty((0, len(shape)), dtype=int)
         cnt = 0
         while (len(subs) < nonzeros) and (cnt < 10):
             subs = (
@@ -258,8 +258,18 @@ class sptensor:
             subs = np.unique(subs, axis=0)
             cnt += 1
 
-        nonzeros = int(min(nonzeros, subs.shape[0]))
-        subs = subs[0:nonzeros, :]
+        # Top up a short result: redraw only the missing subscripts and, for a
+        # (nearly) full tensor, pick them among the entries not hit so far
+        while (len(subs) < nonzeros) and (cnt < 20):
+            more = np.random.uniform(size=[nonzeros - len(subs), len(shape)])
+            more = more.dot(np.diag(shape)).astype(int)
+            subs = np.unique(np.vstack((subs, more)), axis=0)
+            cnt += 1
+        if len(subs) < nonzeros:
+            unused = np.setdiff1d(np.arange(prod(shape)), tt_sub2ind(shape, subs))
+            more = np.random.choice(unused, nonzeros - len(subs), replace=False)
+            subs = np.unique(np.vstack((subs, tt_ind2sub(shape, more))), axis=0)
+
         vals = function_handle((nonzeros, 1))
 
         # Store everything
